@@ -84,6 +84,43 @@ CHECKS = {
              "evaluator for the values (inputs are sampled at boundary lengths), a model checker for the K12 automaton. CMAC over Blowfish/CAST-128 is not judged yet.",
         technique="standards transcribed as a TLA+ data layer evaluated by TLC on recorded calls (trace validation); TLA+ model of the K12 chunk automaton checked exhaustively and replayed",
     ),
+    "C07": dict(
+        category="model_checking",
+        text="RFC 8017 7.1.2/7.2.2 decoding rules (and the encoders) are transcribed in TLA+ (data/PKCS1); mc/Pkcs1MC makes TLC enumerate the encoded-message pattern "
+             "classes (first two octets, position of the first zero, zeros inside PS, sentinel kinds, expected lengths; OAEP: Y, lHash' flips, PS bytes, missing/late 01, "
+             "toy and real hashes/MGFs) with the invariant that each pattern's constructed class equals the decoder's verdict and that accepted blocks are exactly the "
+             "encoder's image; every pattern is offered to the real PKCS1_v1_5/PKCS1_OAEP decrypt through a stub key (Python wrapper + branch-free C decoder) and through "
+             "real RSA keys of 512-1024 bits (incl. bit lengths = 1 mod 8), with round trips for message lengths 0..max+1 and wrong-length / >= n ciphertexts; TLC judges every outcome.",
+        design_ref="DESIGN.md section 6, C07",
+        note="Trusted: TLC; PKCS1.tla (pinned by OpenSSL-produced blocks and Decode(Encode(M)) = M loops), SHA-1/SHA-256 transcriptions; the block logged from _decrypt_to_bytes is "
+             "taken as the decrypted block (RSA arithmetic itself is C05/C14's subject; for e = 3 keys the cube relation is checked with witnesses). Timing is out of scope.",
+        technique="RFC 8017 decoding rules transcribed in TLA+, pattern classes enumerated by TLC (model checking), replayed on the real decoders; code->spec trace validation in TLC",
+    ),
+    "C09": dict(
+        category="model_checking",
+        text="Implementation-shaped buffering models (block accumulators of the Merkle-Damgaard hashes, sponge valid_bytes, Poly1305, BLAKE2 lazy flush, CMAC cache/last blocks with copy, "
+             "CTR look-ahead, OFB/CFB shift register for any segment size, ChaCha20/Salsa20 key-stream offsets, XOF squeezing, OCB caches, S2V deferral, and GcmObj/CcmObj/K12Obj by INSTANCE) "
+             "are model-checked against the definition over the concatenation for every composition of segment lengths (block size 4, symbolic bytes); TLC-generated segmentations are scaled to "
+             "the real block sizes and replayed on 87 object families crossed with five input buffer kinds, four result modes (returned, output=, output= memoryview, aliased) and caller "
+             "mutation after return; TLC judges every piece against the one-shot slice at its stream position, final tags/digests, unchanged inputs, output= equivalence and projected cache lengths.",
+        design_ref="DESIGN.md section 6, C09",
+        note="Trusted: TLC; one-shot references are the library's own over plain bytes (their conformance is C02/C03's subject); buffers inside native code are bound through delivered bytes only. "
+             "TupleHash is checked metamorphically only.",
+        technique="TLA+ refinement models of the buffering logic checked exhaustively by TLC; spec->code replay of all segmentations; code->spec trace validation in TLC",
+    ),
+    "C13": dict(
+        category="model_checking",
+        text="obj/DerDecoder is an X.690 DER reader with decoder/encoder pairs for all nine Der* classes (strict on/off, implicit/explicit tags, nr_elements, only_ints_expected), plus PKCS#8 "
+             "containers, padding (three styles), integer conversion and PEM; TLC classifies every byte string up to length 4-5 over a 15-byte alphabet for 28 decoder configurations with the "
+             "invariants 'accepted iff definite, minimal, non-truncated, non-trailing' and 'strict acceptance implies re-encoding gives the same bytes', and round trips over a finite value "
+             "universe; the same universes are run through the real decoders and re-judged by TLC; grammar-aware mutations of real exported RSA/DSA/ECC keys (about 45 mutations per element, "
+             "PBES parameter mutants, OpenSSH containers, PEM text mutations) are offered to import_key/PKCS8.unwrap/PEM.decode and judged for totality (documented exception set), strictness "
+             "(the defect is confirmed from the bytes by ReadTlv) and absence of password-based derivation without a passphrase.",
+        design_ref="DESIGN.md section 6, C13",
+        note="Trusted: TLC; the DER/PEM/padding transcriptions (pinned by X.690, RFC 4648 and OpenSSL-produced vectors). Named tolerances where X.690 refuses but C13 is silent are listed in "
+             "DESIGN.md 11.4. 'Time bounded by the input size' is observed only as the absence of a KDF call on the no-passphrase path.",
+        technique="TLA+ DER/PEM/padding decoders model-checked exhaustively over all short strings by TLC; replay on the real decoders and mutation sweep of key files; code->spec trace validation in TLC",
+    ),
 }
 
 NOT_APPLICABLE = {
